@@ -237,3 +237,35 @@ def simulate_callback(engine, st, fr, cb, arg, prepare=None):
     finally:
         engine.cfg.concurrent = saved
     return outs
+
+
+def local(engine, st, fr, role, default):
+    """Value of the local variable that plays `role` in the function being executed (pyvc.b_ctrl.role_name), falling back to the name it has
+    on the pinned tree: contracts speak about the role of a temporary, not about what it happens to be called."""
+    from pyvc.b_ctrl import role_name
+    env = st.envs[fr.eid]
+    nm = role_name(fr.func.node, role, default)
+    if nm not in env and default in env:
+        nm = default
+    return env[nm]
+
+
+def L(engine, func, pattern):
+    """A branch-decision label as the engine prints it (the source text of the condition) with the temporaries named by ROLE:
+    L(engine, "timeout.TimeoutExecutor._partition_jobs", "{$for#0|job}.future.done()").  Each {role|pinned name} is replaced by the
+    name that plays the role in the current source of `func`, so that a renamed local does not change what a clause looks for."""
+    import re
+    from pyvc.b_ctrl import role_name
+    node = engine.repo.func(func).node
+
+    def sub(m):
+        role, _, dflt = m.group(1).partition("|")
+        return role_name(node, role, dflt or None) or dflt
+    return re.sub(r"\{([^}]*)\}", sub, pattern)
+
+
+def decided(engine, st, func, pattern, value=None, decisions=None):
+    """Outcomes (list of bools) of the decisions whose label is L(func, pattern); with `value`, whether one of them had that outcome."""
+    lab = L(engine, func, pattern)
+    outs = [b for a, b in (st.decisions if decisions is None else decisions) if a == lab]
+    return outs if value is None else any(b == value for b in outs)
